@@ -345,9 +345,30 @@ def shared_state(ctx) -> None:
             else:
                 ctx.ok('C06.shared-state', ci.ref, f'{ci.qual}.{name} is immutable or never written at call time')
     ctx.floor('C06.shared-state', n, 4)
-    # the result cache key must depend on the statement only through its compiled text; report what it depends on
+    # the result cache key must at least determine the statement *including its literal values*
     key_fn = prog.func('forml.provider.feed.alchemy:Results._statement2key')
     ctx.sample({'result_cache_key_params': key_fn.param_names})
+    compiles = [c for c in core.calls_in(key_fn.node) if isinstance(c.func, ast.Attribute) and c.func.attr == 'compile']
+    literal = False
+    for c in compiles:
+        for kw in c.keywords:
+            if kw.arg == 'compile_kwargs' and isinstance(kw.value, ast.Dict):
+                for k, v in zip(kw.value.keys, kw.value.values):
+                    if isinstance(k, ast.Constant) and k.value == 'literal_binds' and core.is_const(v, True):
+                        literal = True
+    text = core.src(key_fn.node)
+    values_in_key = literal or 'params.items()' in text or 'params.values()' in text
+    whole = any(isinstance(c, ast.Call) and core.call_name(c) == 'str' and c.args and any(x in compiles for x in ast.walk(c.args[0])) for c in core.calls_in(key_fn.node)) if literal else values_in_key
+    ctx.check(bool(compiles) and values_in_key and whole, 'C06.cache-key', key_fn, 'the result-cache key is a digest of the whole compiled statement with its literal values bound (statements differing in a literal must not share a cached result)', key_fn.node, key='statement2key:literals')
+    # lazy origins: an origin is recorded as registered only after the registration succeeded (no stale "done" mark)
+    lz = prog.func('forml.provider.feed.lazy:Feed.Reader.__call__')
+    graph = cfg.CFG(lz.node)
+    marks = [s for s in graph.statements() if isinstance(s, ast.Assign) and any(isinstance(tg, ast.Subscript) and core.src(tg.value).endswith('PARTITIONS') for tg in s.targets)]
+    regs = [s for s in graph.statements() if any(isinstance(c.func, ast.Attribute) and c.func.attr == 'execute' and 'BACKEND' in core.src(c.func.value) for c in cfg.header_calls(s))]
+    if not marks or not regs:
+        raise core.AnalysisError('lazy reader: registration / PARTITIONS bookkeeping idiom not found')
+    ordered = all(graph.must_pass(cfg.ENTRY, m, via=regs, normal_only=True) and not any(graph.reaches(m, r, normal_only=True, no_back=True) for r in regs) for m in marks)
+    ctx.check(ordered, 'C06.register-then-mark', lz, 'PARTITIONS records an origin only after its data was registered with the backend (a failed load must not leave the origin marked as present)', marks[0], key='lazy:mark-after-register')
 
 
 def run(ctx) -> None:
